@@ -1,5 +1,6 @@
 //! General utility functions
 
+use core::cell::Cell;
 use core::cmp::Ordering;
 use core::marker::PhantomData;
 use core::mem::{align_of, size_of};
@@ -84,7 +85,9 @@ impl<T> OffsetSlice<T> {
     pub fn is_empty(&self) -> bool {
         self.length == 0
     }
-    pub fn as_slice<'a>(&self, buffer: &'a [u8]) -> &'a [T] {
+    /// The buffer is a slice of cells, because `T` may contain atomics that are
+    /// modified through the returned shared reference.
+    pub fn as_slice<'a>(&self, buffer: &'a [Cell<u8>]) -> &'a [T] {
         assert!(self.offset + self.length * size_of::<T>() <= buffer.len());
         unsafe { slice::from_raw_parts(buffer.as_ptr().add(self.offset).cast(), self.length) }
     }
